@@ -153,6 +153,8 @@ def run(tier, seed, model):
             if off == 0:
                 batch.add(cfg, [hs + msg], [], r, True, "channels")
     announced_in_force(camp, rng, batch, 3 if tier == "quick" else 40)
+    if not camp.oracle_failures:
+        session_sequences(camp, rng, 12 if tier == "quick" else 300)
     camp.exhaustive = False
     camp.extra["bgr16_all_65536_values"] = True
     batch.resolve(camp, "C13")
@@ -210,6 +212,45 @@ def announced_in_force(camp, rng, batch, rounds):
                         return
                     r.pop("client")
                     batch.add(cfg, chunks, [], r, True, "announced")
+
+
+def session_sequences(camp, rng, rounds):
+    """several sessions in one process (vncdotool.api, reconnects), to servers whose formats differ only in the channel order:
+    the SAME wire bytes - as raw pixels and as RRE background / sub-rectangle colours painted into the existing screen -
+    mean each session's own colours"""
+    for _ in range(rounds):
+        bpp = rng.choice([32, 32, 24]) if any(f.bpp == 24 for f in rfbgen.ACCEPTED) else 32
+        fmts = [f for f in rfbgen.ACCEPTED if f.bpp == bpp]
+        if len(fmts) < 2:
+            continue
+        vals = [rng.getrandbits(bpp) for _ in range(8)]
+        bg, fg = rng.getrandbits(bpp), rng.getrandbits(bpp)
+        order = [rng.choice(fmts) for _ in range(rng.randrange(2, 5))]
+        if len(set(f.t for f in order)) < 2:
+            order[-1] = next(f for f in fmts if f.t != order[0].t)
+        for k, fmt in enumerate(order):
+            hs = b"RFB 003.008\n\x01\x01\0\0\0\0" + struct.pack("!HH16sI", 4, 2, fmt.block(), 0)
+            msg = (b"\0\0\0\x01" + struct.pack("!HHHHi", 0, 0, 4, 2, 0) + b"".join(fmt.pix(v) for v in vals)
+                   + b"\0\0\0\x01" + struct.pack("!HHHHi", 1, 0, 2, 2, 2) + struct.pack("!I", 1) + fmt.pix(bg)
+                   + fmt.pix(fg) + struct.pack("!HHHH", 1, 1, 1, 1)
+                   + b"\x02")
+            want = [fmt.rgb(v) for v in vals]
+            for (x, y) in [(1, 0), (2, 0), (1, 1)]:
+                want[y * 4 + x] = fmt.rgb(bg)
+            want[1 * 4 + 2] = fmt.rgb(fg)
+            want = b"".join(bytes(p_) for p_ in want)
+            cfg = Cfg(variant=rng.choice([1, 2]), nocursor=True)
+            r = run_real(cfg, [hs + msg])
+            camp.evaluations += 1
+            camp.count(f"session-sequence:bpp{bpp}:position{min(k, 3)}")
+            camp.nontrivial.add(("sequence", tuple(f.t for f in order[:k + 1]), tuple(vals), bg, fg))
+            got = r["screen"][1] if r["screen"] else None
+            if r["final"][0] != "idle" or got != want:
+                camp.oracle_failures.append({"kind": "oracle", "property": "C13", "case": case_payload(cfg, [hs + msg]),
+                                             "what": f"session #{k + 1} of one process (formats so far {[f.t for f in order[:k + 1]]}): a raw + RRE update in this "
+                                                     f"session's format {fmt.t}: the client ends {r['final'][:2]}, screen "
+                                                     f"{None if got is None else got.hex()}, the colours sent are {want.hex()}"})
+                return
 
 
 def replay(payload):
